@@ -102,6 +102,8 @@ func c16Events(values []int) []c16Event {
 		{"OPTIONS * handler", hv.Req{Method: "OPTIONS", Path: "*", Host: host}, "h"},
 		{"group not-found handler", hv.Req{Method: "GET", Path: "/x", Host: "nomatch.com"}, "h"},
 		{"group Use middleware around not-found", hv.Req{Method: "GET", Path: "/x", Host: "nomatch.com"}, "mw:G:pre"},
+		// user code that runs while the route is being looked up (under the tree lock when WithLock is set)
+		{"interceptor during matching", hv.Req{Method: "GET", Path: "/i/12", Host: host}, "interceptor"},
 	}
 	for _, s := range sites {
 		for _, v := range values {
@@ -129,24 +131,35 @@ func c16System(kind string) (srv http.Handler, routerRec, groupRec string, rl, g
 		return mux.WithRecovery(func(w http.ResponseWriter, v any) { l.calls = append(l.calls, v); w.WriteHeader(500) })
 	}
 	populate := func(r *Router) {
+		r.Handle("/i/{n:boom}", hv.Route("hi"), nil, "GET")
 		r.Use(hv.MW{Name: "U"})
 		r.Handle("/x", hv.Route("hx"), nil, "GET", "POST")
 		r.Handle("/u/{id}", hv.Route("hu"), nil, "GET")
 		r.Handle("/n/{id}", hv.Route("hn", hv.Step{Op: "Nest"}), nil, "GET")
 		r.Prefix("/p", hv.MW{Name: "D"}).Handle("/y", hv.Route("hy"), mws(nil, []string{"M1"}), "GET")
 	}
-	trace := mux.WithTrace(hv.TraceH())
+	// every router also gets an interceptor that panics on demand and, for the "+lock" kinds, WithLock(true)
+	lock := strings.HasSuffix(kind, "+lock")
+	kind = strings.TrimSuffix(kind, "+lock")
+	base := []mux.Option{mux.WithTrace(hv.TraceH()), mux.WithLock(lock), mux.WithInterceptor(func(s string) bool {
+		if c16InterceptorPanic != nil {
+			v := c16InterceptorPanic
+			panic(v)
+		}
+		return s != ""
+	}, "boom")}
+	with := func(extra ...mux.Option) []mux.Option { return append(append([]mux.Option{}, base...), extra...) }
 	switch kind {
 	case "router-none":
-		router = NewRouter(RouterCfg{Name: "r1"}, trace)
+		router = NewRouter(RouterCfg{Name: "r1"}, with()...)
 		populate(router)
 		return router, "none", "n/a", rl, gl, router
 	case "router-rec":
-		router = NewRouter(RouterCfg{Name: "r1"}, trace, recOpt(rl))
+		router = NewRouter(RouterCfg{Name: "r1"}, with(recOpt(rl))...)
 		populate(router)
 		return router, "func", "n/a", rl, gl, router
 	case "router-status":
-		router = NewRouter(RouterCfg{Name: "r1"}, trace, mux.WithStatusRecovery(500))
+		router = NewRouter(RouterCfg{Name: "r1"}, with(mux.WithStatusRecovery(500))...)
 		populate(router)
 		return router, "status", "n/a", rl, gl, router
 	}
@@ -154,18 +167,18 @@ func c16System(kind string) (srv http.Handler, routerRec, groupRec string, rl, g
 	host := mux.NewHosts(false, "a.com")
 	switch kind {
 	case "group-none":
-		g = newGroup(trace)
+		g = newGroup(with()...)
 		g.Use(hv.MW{Name: "G"})
 		router = g.New("r1", host)
 		routerRec, groupRec = "none", "none"
 	case "group-rec-inherited":
-		g = newGroup(trace, recOpt(gl))
+		g = newGroup(with(recOpt(gl))...)
 		g.Use(hv.MW{Name: "G"})
 		router = g.New("r1", host)
 		rl = gl // the router inherits the group's function
 		routerRec, groupRec = "func", "func"
 	case "group-status-inherited":
-		g = newGroup(trace, mux.WithStatusRecovery(500))
+		g = newGroup(with(mux.WithStatusRecovery(500))...)
 		g.Use(hv.MW{Name: "G"})
 		router = g.New("r1", host)
 		routerRec, groupRec = "status", "status"
@@ -173,30 +186,30 @@ func c16System(kind string) (srv http.Handler, routerRec, groupRec string, rl, g
 		// New gets an unrelated option of its own: the group's recovery must still be inherited
 		g = newGroup(recOpt(gl))
 		g.Use(hv.MW{Name: "G"})
-		router = g.New("r1", host, trace, mux.WithURLDomain("https://h"))
+		router = g.New("r1", host, with(mux.WithURLDomain("https://h"))...)
 		rl = gl
 		routerRec, groupRec = "func", "func"
 	case "group-rec-new-overrides":
-		g = newGroup(trace, recOpt(gl))
+		g = newGroup(with(recOpt(gl))...)
 		g.Use(hv.MW{Name: "G"})
 		router = g.New("r1", host, recOpt(rl))
 		routerRec, groupRec = "func", "func"
 	case "group-rec-added-own":
-		g = newGroup(trace, recOpt(gl))
+		g = newGroup(with(recOpt(gl))...)
 		g.Use(hv.MW{Name: "G"})
-		router = NewRouter(RouterCfg{Name: "r1"}, trace, recOpt(rl))
+		router = NewRouter(RouterCfg{Name: "r1"}, with(recOpt(rl))...)
 		g.Add(host, router)
 		routerRec, groupRec = "func", "func"
 	case "group-none-added-rec":
-		g = newGroup(trace)
+		g = newGroup(with()...)
 		g.Use(hv.MW{Name: "G"})
-		router = NewRouter(RouterCfg{Name: "r1"}, trace, recOpt(rl))
+		router = NewRouter(RouterCfg{Name: "r1"}, with(recOpt(rl))...)
 		g.Add(host, router)
 		routerRec, groupRec = "func", "none"
 	case "group-rec-added-none":
-		g = newGroup(trace, recOpt(gl))
+		g = newGroup(with(recOpt(gl))...)
 		g.Use(hv.MW{Name: "G"})
-		router = NewRouter(RouterCfg{Name: "r1"}, trace)
+		router = NewRouter(RouterCfg{Name: "r1"}, with()...)
 		g.Add(host, router)
 		routerRec, groupRec = "none", "func"
 	}
@@ -204,7 +217,10 @@ func c16System(kind string) (srv http.Handler, routerRec, groupRec string, rl, g
 	return g, routerRec, groupRec, rl, gl, router
 }
 
-var c16Kinds = []string{"group-rec-new-extra-option", "router-none", "router-rec", "router-status", "group-none", "group-rec-inherited", "group-status-inherited", "group-rec-new-overrides", "group-rec-added-own", "group-none-added-rec", "group-rec-added-none"}
+// c16InterceptorPanic, when non-nil, makes the "boom" interceptor panic with that value.
+var c16InterceptorPanic any
+
+var c16Kinds = []string{"router-rec+lock", "group-rec-inherited+lock", "router-none+lock", "group-rec-new-extra-option", "router-none", "router-rec", "router-status", "group-none", "group-rec-inherited", "group-status-inherited", "group-rec-new-overrides", "group-rec-added-own", "group-none-added-rec", "group-rec-added-none"}
 
 func c16Job(raw json.RawMessage) (any, error) {
 	var it c16Item
@@ -245,8 +261,16 @@ func c16Job(raw json.RawMessage) (any, error) {
 				q.Fault = &hv.Fault{Site: e.Site, Val: val}
 			}
 			r0, g0 := len(rl.calls), len(gl.calls)
+			if e.Site == "interceptor" {
+				c16InterceptorPanic = val
+			}
 			o := hv.Serve(srv, q)
+			c16InterceptorPanic = nil
 			out.Evals++
+			if n := heldLocks(); n != 0 {
+				rep("lock-leaked", e.Name+": "+q.String(), fmt.Sprintf("%d router lock(s) still held after ServeHTTP returned", n), "every lock released (a later Handle/Remove would block forever)")
+				return
+			}
 			groupLevel := isGroup && q.Host == "nomatch.com"
 			rec := routerRec
 			log := rl
